@@ -9,6 +9,9 @@ sys.path.insert(0, os.path.join(os.path.dirname(os.path.abspath(__file__)), ".."
 import vlib  # noqa: E402
 
 
+TRANSPORTS = ("tls", "ws", "wss")
+
+
 def run(binary, scenarios):
     """Returns {id: result}; scenarios the sandbox cannot run (no loop-back) are left out."""
     inp = "\n".join(json.dumps(s) for s in scenarios) + "\n"
@@ -35,6 +38,10 @@ def c05(binary, verd):
         for q in (0, 1, 2):
             scs.append({"id": "mx%d-q%d-over" % (mx, q), "max": mx, "payload": mx + 1, "qos": q})
             scs.append({"id": "mx%d-q%d-under" % (mx, q), "max": mx, "payload": mx - 1, "qos": q})
+    # the same through the TLS and WebSocket transports the URL dialer can build (mqtts://, ws://, wss://)
+    for tr in TRANSPORTS:
+        scs.append({"id": "mx100-q1-over-%s" % tr, "max": 100, "payload": 101, "qos": 1, "transport": tr})
+        scs.append({"id": "mx100-q2-under-%s" % tr, "max": 100, "payload": 99, "qos": 2, "transport": tr})
     res = run(binary, scs)
     for s in scs:
         r = res.get(s["id"])
@@ -52,6 +59,7 @@ def c05(binary, verd):
 
 def c16(binary, verd):
     scs = [{"id": "st-plain", "max": 0, "payload": 3, "qos": 1}, {"id": "st-re2", "max": 0, "payload": 3, "qos": 1, "reconnects": 2}]
+    scs += [{"id": "st-re1-%s" % tr, "max": 0, "payload": 3, "qos": 1, "reconnects": 1, "transport": tr} for tr in TRANSPORTS]
     res = run(binary, scs)
     for s in scs:
         r = res.get(s["id"])
@@ -86,6 +94,7 @@ def c19(binary, verd):
 
 def c09(binary, verd):
     scs = [{"id": "same-connect-%d" % n, "max": 0, "payload": 3, "qos": 1, "reconnects": n} for n in (1, 3)]
+    scs += [{"id": "same-connect-2-%s" % tr, "max": 0, "payload": 3, "qos": 2, "reconnects": 2, "transport": tr} for tr in TRANSPORTS]
     res = run(binary, scs)
     for s in scs:
         r = res.get(s["id"])
